@@ -49,3 +49,6 @@ func (i *Snapshot) VerifSegs() []VerifSeg {
 	}
 	return rv
 }
+
+// VerifDirectory returns the directory this writer was opened on.
+func (s *Writer) VerifDirectory() Directory { return s.directory }
